@@ -157,6 +157,10 @@ def cases(tier, seed):
     nr = 60 if tier == "quick" else 6000
     for i in range(nr):
         out.append({"kind": "random", "i": i, "seed": seed, "tuple": 1000 + i, "first_best": i % 2 == 0})
+    # another solver drives ITS search until its partition is down to adjacent doubles around x = 0.5 (where every solver has an interval end)
+    # and its own floating-point guard stops it: the solver under observation must not notice
+    for i in range(8 if tier == "quick" else 200):
+        out.append({"kind": "collapse", "i": i, "seed": seed, "tuple": 5000 + i})
     return out
 
 
@@ -368,9 +372,68 @@ def solo_refs(scns, progs):
     return refs
 
 
+def run_collapse(c):
+    import contextlib
+    import io
+    rng = scenario.rng_for(c["seed"], "C12c", c["i"])
+    viol = []
+    obs = {"collapse_programs": 1}
+    scn = scenario.gen_scenario(rng, dims=(1, 1, 2), refine=False, max_iters=60, fams=["cones", "sines", "wells", "linear"])
+    scn["iters"] = int(rng.integers(20, 60))
+    k0 = int(rng.integers(1, 6))
+    pat = [["iter", k0], ["solve"]]
+    ref = record.run_solver(dict(scn, pattern=pat), listener=False)
+    if ref.fp_exhausted or ref.swallowed or ref.aborted:
+        return {"violations": [], "obs": {"collapse_reference_not_usable": 1}, "skip": "fp-domain-exhausted"}
+    lo_c, hi_c, _ = scenario.gen_box(rng, 1, "float" if c["i"] % 2 else "unit")
+    cscn = {"N": 1, "lower": lo_c, "upper": hi_c, "box": "float", "obj": {"fam": "cones", "a": [[0.5]], "c": [0.0], "K": [float(10 ** rng.uniform(-1, 1))]},
+            "r": float(rng.choice([1.3, 2.0, 1.000001])), "eps": 1e-3, "iters": 100000, "m": 10, "refine": False, "holder": "same"}
+    seen = {}
+
+    def collapse_other():
+        prob, _ = record.make_problem(cscn, cap=5000)
+        other = Solver(prob, parameters=record.make_params(cscn))
+        ended = "ran on"
+        with contextlib.redirect_stdout(io.StringIO()):
+            try:
+                for q in range(400):
+                    other.DoGlobalIteration(5)
+            except BaseException as e:
+                ended = "stopped by its guard" if record.FP_GUARD in str(e) else "raised " + type(e).__name__
+        xs = [float(it.GetX()) for it in other.searchData]
+        seen["min_gap"] = float(np.min(np.diff(xs))) if len(xs) > 1 else None
+        seen["ended"] = ended
+        seen["other"] = other
+
+    def after_step(n, step):
+        if n == 0:
+            saved = list(record.PHASE)
+            collapse_other()
+            record.PHASE[:] = saved
+    t = record.run_solver(dict(scn, pattern=pat), listener=False, after_step=after_step)
+    obs["collapse_other_" + seen.get("ended", "never ran").replace(" ", "_")] = 1
+    if seen.get("min_gap") is not None:
+        obs["min_gap_of_the_collapsed_partition"] = seen["min_gap"]
+    g0 = [e for e in ref.log if e["ph"] == "g"]
+    g1 = [e for e in t.log if e["ph"] == "g"]
+    if not log_eq(g1, g0):
+        viol.append({"mech": "trial-sequence-differs-from-solo", "len": len(g1), "solo_len": len(g0), "tag": "another solver collapsed its partition in between",
+                     "other_solver": seen.get("ended"), "scenario": scenario.short(scn)})
+    elif ref.solutions and t.solutions and not snap_eq(record.snap_solution(t.solutions[-1]), record.snap_solution(ref.solutions[-1])):
+        viol.append({"mech": "result-differs-from-solo", "tag": "another solver collapsed its partition in between"})
+    # and a solver created afterwards
+    t2 = record.run_solver(dict(scn, pattern=pat), listener=False)
+    if not log_eq([e for e in t2.log if e["ph"] == "g"], g0):
+        viol.append({"mech": "trial-sequence-differs-from-solo", "tag": "a solver created after another one collapsed its partition", "scenario": scenario.short(scn)})
+    return {"violations": viol, "obs": obs, "nontrivial": True, "keys": ["collapse|%d" % c["i"]],
+            "sample": {"kind": "another solver collapses its partition around x=0.5", "other": seen.get("ended"), "min_gap": seen.get("min_gap")} if c["i"] < 2 else None}
+
+
 def run_case(c):
     record.install_phase_wrappers()
     del record.PHASE[:]
+    if c["kind"] == "collapse":
+        return run_collapse(c)
     viol = []
     obs = {}
     rng = scenario.rng_for(c["seed"], "C12t", c["tuple"])
@@ -489,6 +552,8 @@ def finalize(obs, tier, stats):
         return "sibling tuples never exercised for: %s" % miss, {}
     if not obs.get("programs_with_setbounds_on_own_evolvent"):
         return "no interleaved program re-bounded its own evolvent", {}
+    if not obs.get("collapse_other_stopped_by_its_guard"):
+        return "no other solver was driven to its floating-point guard", {}
     if not obs.get("programs_where_every_solver_refines"):
         return "no interleaved program had every solver refine", {}
     if not obs.get("programs_with_local_refinement"):
